@@ -413,11 +413,11 @@ func run(line string) (out string) {
 		b, _ := hex.DecodeString(f[3])
 		orig := append([]byte{}, b...)
 		n, err := bgp.NLRIFromSlice(bgp.NewFamily(uint16(afi), uint8(safi)), b)
+		if !bytes.Equal(orig, b) {
+			return "modified-input" // whether or not the octets were accepted
+		}
 		if err != nil || n == nil {
 			return "err"
-		}
-		if !bytes.Equal(orig, b) {
-			return "modified-input"
 		}
 		return "ok " + describeNLRI(n)
 	case "mpnlri":
@@ -440,9 +440,13 @@ func run(line string) (out string) {
 		if g[0] == "1" {
 			opt.AddPath = map[bgp.Family]bgp.BGPAddPathMode{fam: bgp.BGP_ADD_PATH_BOTH}
 		}
+		origAttr := append([]byte{}, attr...)
 		a, err := bgp.GetPathAttribute(attr)
 		if err == nil {
 			err = a.DecodeFromBytes(attr, opt)
+		}
+		if !bytes.Equal(origAttr, attr) {
+			return "modified-input"
 		}
 		if err != nil {
 			return "err"
@@ -594,6 +598,47 @@ func run(line string) (out string) {
 			}
 			if ob2, err := om2.Serialize(); err != nil || !bytes.Equal(ob, ob2) {
 				fails = append(fails, fmt.Sprintf("(open-not-a-fixpoint 0 %s %s)", hex.EncodeToString(ob), hex.EncodeToString(ob2)))
+			}
+		}
+		// the UPDATE a 2-octet-AS session carries (2-octet AS_PATH and AGGREGATOR with AS_TRANS, AS4_PATH, AS4_AGGREGATOR):
+		// serialised and parsed under Use2ByteAS, message and every attribute on its own
+		{
+			n++
+			nh, _ := bgp.NewPathAttributeNextHop(netip.MustParseAddr("192.0.2.1"))
+			ag, _ := bgp.NewPathAttributeAggregator(uint16(bgp.AS_TRANS), netip.MustParseAddr("10.9.9.9"))
+			ag4, _ := bgp.NewPathAttributeAs4Aggregator(4200000000, netip.MustParseAddr("10.9.9.9"))
+			old := []bgp.PathAttributeInterface{bgp.NewPathAttributeOrigin(0),
+				bgp.NewPathAttributeAsPath([]bgp.AsPathParamInterface{bgp.NewAsPathParam(bgp.BGP_ASPATH_ATTR_TYPE_SEQ, []uint16{65001, bgp.AS_TRANS, bgp.AS_TRANS}), bgp.NewAsPathParam(bgp.BGP_ASPATH_ATTR_TYPE_SET, []uint16{1, 2})}),
+				nh, ag,
+				bgp.NewPathAttributeAs4Path([]*bgp.As4PathParam{bgp.NewAs4PathParam(bgp.BGP_ASPATH_ATTR_TYPE_SEQ, []uint32{65001, 70000, 4200000000}), bgp.NewAs4PathParam(bgp.BGP_ASPATH_ATTR_TYPE_SET, []uint32{1, 2})}),
+				ag4}
+			o2 := opts(false, true, false)
+			for _, a := range old {
+				b, err := a.Serialize(o2)
+				if err != nil {
+					fails = append(fails, fmt.Sprintf("(serialize-error-2octet %d)", a.GetType()))
+					continue
+				}
+				a2, err := bgp.GetPathAttribute(b)
+				if err == nil {
+					err = a2.DecodeFromBytes(b, o2)
+				}
+				if err != nil {
+					fails = append(fails, fmt.Sprintf("(own-output-rejected-2octet %d %s %s)", a.GetType(), hex.EncodeToString(b), strings.ReplaceAll(err.Error(), " ", "_")))
+					continue
+				}
+				if b2, err := a2.Serialize(o2); err != nil || !bytes.Equal(b, b2) || a2.String() != a.String() {
+					fails = append(fails, fmt.Sprintf("(not-a-fixpoint-2octet %d %s %s)", a.GetType(), hex.EncodeToString(b), hex.EncodeToString(b2)))
+				}
+			}
+			nl, _ := bgp.NewIPAddrPrefix(netip.MustParsePrefix("10.0.0.0/24"))
+			m := bgp.NewBGPUpdateMessage(nil, old, []bgp.PathNLRI{{NLRI: nl}})
+			if mb, err := m.Serialize(o2); err != nil {
+				fails = append(fails, "(serialize-error-2octet 0)")
+			} else if m2, err := bgp.ParseBGPMessage(mb, o2); err != nil || m2 == nil {
+				fails = append(fails, fmt.Sprintf("(own-message-rejected-2octet 0 %s %v)", hex.EncodeToString(mb), strings.ReplaceAll(fmt.Sprint(err), " ", "_")))
+			} else if mb2, err := m2.Serialize(o2); err != nil || !bytes.Equal(mb, mb2) || len(m2.Body.(*bgp.BGPUpdate).PathAttributes) != len(old) {
+				fails = append(fails, fmt.Sprintf("(message-not-a-fixpoint-2octet 0 %s %s)", hex.EncodeToString(mb), hex.EncodeToString(mb2)))
 			}
 		}
 		if len(fails) > 0 {
